@@ -183,6 +183,18 @@ def weightM (m0 m1 : M6 α) (w : α) : M6 α :=
 
 /-! ### diag_m2 : closed form 2x2 -/
 
+/-- tail of `ref_matrix_diag_m2`: from the unit vector (c2, s2) = (cos 2t, sin 2t), c2 <= 0, to the system -/
+def diagM2Fin (m : M3 α) (c2 s2 : α) : Eig6 α :=
+  let half : α := Scalar.ofDec 5 (-1)
+  let s := Scalar.sqrt (half *. (one -. c2))
+  let c := half *. s2 /. s
+  let cc := c *. c
+  let ss := s *. s
+  let mid := s2 *. m.m12
+  { l0 := cc *. m.m22 -. mid +. ss *. m.m11
+    l1 := cc *. m.m11 +. mid +. ss *. m.m22
+    x0 := s, y0 := -. c, x1 := c, y1 := s }
+
 /-- `ref_matrix_diag_m2` -/
 def diagM2 (m : M3 α) : Except Err (Eig6 α) :=
   if !(Scalar.isFinite m.m11 && Scalar.isFinite m.m12 && Scalar.isFinite m.m22) then .error .invalid else
@@ -190,15 +202,6 @@ def diagM2 (m : M3 α) : Except Err (Eig6 α) :=
   let c2 := half *. (m.m11 -. m.m22)
   let s2 := m.m12
   let norm := cmax (cabs c2) (cabs s2)
-  let fin (c2 s2 : α) : Except Err (Eig6 α) :=
-    let s := Scalar.sqrt (half *. (one -. c2))
-    let c := half *. s2 /. s
-    let cc := c *. c
-    let ss := s *. s
-    let mid := s2 *. m.m12
-    .ok { l0 := cc *. m.m22 -. mid +. ss *. m.m11
-          l1 := cc *. m.m11 +. mid +. ss *. m.m22
-          x0 := s, y0 := -. c, x1 := c, y1 := s }
   if divisible c2 norm && divisible s2 norm then
     let c2 := c2 /. norm
     let s2 := s2 /. norm
@@ -207,9 +210,9 @@ def diagM2 (m : M3 α) : Except Err (Eig6 α) :=
     if !(divisible s2 l) then .error .failure else
     let c2 := c2 /. l
     let s2 := s2 /. l
-    if bgt c2 zero then fin (-. c2) (-. s2) else fin c2 s2
+    if bgt c2 zero then .ok (diagM2Fin m (-. c2) (-. s2)) else .ok (diagM2Fin m c2 s2)
   else
-    fin (Scalar.ofInt (-1)) zero
+    .ok (diagM2Fin m (Scalar.ofInt (-1)) zero)
 
 /-! ### diag_m : one rotation to tridiagonal form + implicit QL -/
 
